@@ -6,6 +6,7 @@ Import ListNotations.
 From Coq Require Import ZArith.
 From CXV Require Import Gen.TokTy Gen.ParserTables Parse.Balanced Gen.Blocks Parse.BlocksSM.
 From CXV Require Import Base.Regex Base.Cost Gen.LexRules Lex.PlyLoop Gen.StreamTables Stream.TokBuf Fmt.TokFmt PP.Filters Misc.ReprModel Gen.Schema Parse.Fold Parse.Declarator Parse.DeclSpec Parse.EnumList Parse.BaseClause Parse.NsHeader Parse.Specs Parse.VarStmt Parse.FnTail Parse.Init Parse.Members Parse.MethodTail Parse.Template Parse.PQName Parse.Using Parse.EnumDecl Parse.ClassEnum Parse.TemplateArg Parse.CtorDtor Parse.ParamsX Parse.DeclStmt Parse.TemplateStmt Parse.MemberStmt Parse.OpName.
+From CXV Require Parse.DispatchLang Gen.Dispatch.
 From CXV Require Parse.Requires.
 Open Scope N_scope.
 
@@ -812,8 +813,34 @@ Definition run_op_name (args : list N) : list N :=
   | DErr e => [1; e]
   end.
 
+(* 111: a keyword handler as translated from the code (Gen/Dispatch.v), run by the interpreter of Parse/DispatchLang.v:
+   handler (0 extern, 1 inline, 2 friend, 3 typedef, 4 static_assert), in-class flag, the keyword token (type, value), tokens.
+   Output: 0 callee rest-length npos <rarg>* nkw (name <rarg>)*  |  1 rest-length <tok option>  |  2 rest-length  |  3 code
+   rarg: 0 (no token) | 1 type value | 2 (doxygen) | 3 (template) | 4 (True) | 5 (False) *)
+Definition enc_rarg (a : DispatchLang.rarg) : list N :=
+  match a with
+  | DispatchLang.RTok None => [0] | DispatchLang.RTok (Some t) => [1; kty t; kval t] | DispatchLang.RDox => [2] | DispatchLang.RTemplate => [3]
+  | DispatchLang.RBool true => [4] | DispatchLang.RBool false => [5]
+  end.
+Definition callee_code (f : DispatchLang.callee) : N := match f with DispatchLang.F_declarations => 0 | DispatchLang.F_template_instantiation => 1 | DispatchLang.F_namespace => 2 end.
+Definition run_dispatch (args : list N) : list N :=
+  match args with
+  | h :: ic :: kt :: kv :: r =>
+      let prog := if h =? 0 then Dispatch.prog_parse_extern else if h =? 1 then Dispatch.prog_parse_inline else if h =? 2 then Dispatch.prog_parse_friend_decl
+                  else if h =? 3 then Dispatch.prog_parse_typedef else Dispatch.prog_consume_static_assert in
+      match DispatchLang.run prog (negb (ic =? 0)) (mkTk kt kv) (dec_tks r) with
+      | DispatchLang.OCall f pos kw rest =>
+          0 :: callee_code f :: nlen rest :: nlen pos :: flat_map enc_rarg pos ++ nlen kw :: flat_map (fun p => fst p :: enc_rarg (snd p)) kw
+      | DispatchLang.OOpenExtern l rest => 1 :: nlen rest :: enc_rarg (DispatchLang.RTok l)
+      | DispatchLang.ODone rest => [2; nlen rest]
+      | DispatchLang.OErr c => [3; c]
+      end
+  | _ => [3; 0]
+  end.
+
 Definition run_case (cmd : N) (args : list N) : list N :=
   match cmd, args with
+  | 111, _ => run_dispatch args
   | 110, _ => run_op_name args
   | 109, _ => run_typedef_decl_stmt args
   | 108, _ => run_member_stmt args
